@@ -969,6 +969,9 @@ def small_rewrites(t):
         if t[2] == t[3]:
             return t[2]
         return t
+    if h == "loopret" and strip(t[2]) == ("next",):
+        # a loop whose body can neither return nor raise (e.g. after its assertions are taken to hold) falls through to what follows it
+        return t[3]
     if h == "item":
         b = strip(t[1])
         if is_const(b) and isinstance(b[2], (str, tuple)) and isinstance(t[2], int) and t[2] < len(b[2]):
